@@ -592,6 +592,32 @@ func c13(c *core.Ctx) {
 		}
 		c13One(k, base, ins, pos, &ref.Opts{Noise: k.R.Byte, CritKnown: k.R.Bool}, "multiple")
 	})
+	// long runs: 60..70 adjacent unsupported payloads of ~1 KiB each, so that the octets skipped in one run cross 65536
+	// (and 32768) - sums of many lengths, not any single length
+	c.Family("long-runs", c.N(40, 4000), func(k *core.Case) {
+		base := gen.Msg(k.R, gen.Opt{MaxPayloads: 3, AllowEmpty: true})
+		n := k.R.Pick(31, 32, 33, 60, 63, 64, 65, 66, 70, 130)
+		var ins []abs.Payload
+		var pos []int
+		at := k.R.Intn(len(base.Payloads) + 1)
+		critAt := -1
+		if k.Index%3 == 2 {
+			critAt = n - 1 - k.R.Intn(3) // a critical one near the end of the run
+		}
+		for i := 0; i < n; i++ {
+			body := k.R.Bytes(k.R.Pick(1020, 1024, 1024, 1000, 1023))
+			if k.Index%2 == 0 {
+				// bodies that look like payload headers of implemented types (what a walker that lost its place would parse)
+				for o := 0; o+8 <= len(body); o += 8 {
+					copy(body[o:], []byte{byte(k.R.Pick(40, 43, 41)), 0, 0, 8, 1, 2, 3, 4})
+				}
+			}
+			ins = append(ins, abs.Payload{Kind: types[k.R.Intn(len(types))], Data: body, Crit: i == critAt})
+			pos = append(pos, at)
+		}
+		c13One(k, base, ins, pos, nil, "long-run")
+		k.Count("long_runs_of_unsupported_payloads", 1)
+	})
 	// unsupported payloads in front of the Encrypted payload of a protected message (cleartext, covered by the checksum):
 	// unprotection must give exactly the message without them, or an error if any is critical
 	c.Family("before-SK", c.N(36*40, 36*6000), func(k *core.Case) {
@@ -726,7 +752,7 @@ func c13(c *core.Ctx) {
 		k.Count("critical_on_implemented", 1)
 		k.Distinct("crit-known|" + abs.Kinds(base))
 	})
-	c.Require("inside_SK_rejected_critical", "inside_SK_skipped_ok", "inside_SK_only_unsupported_payloads", "presented_three_times_with_one_parsed_header", "before_SK_rejected_critical", "before_SK_skipped_ok", "rejected_critical", "skipped_ok", "position_front", "position_middle", "position_end", "critical_on_implemented")
+	c.Require("long_runs_of_unsupported_payloads", "inside_SK_rejected_critical", "inside_SK_skipped_ok", "inside_SK_only_unsupported_payloads", "presented_three_times_with_one_parsed_header", "before_SK_rejected_critical", "before_SK_skipped_ok", "rejected_critical", "skipped_ok", "position_front", "position_middle", "position_end", "critical_on_implemented")
 }
 
 var _ = message.TypeSK
